@@ -1432,6 +1432,8 @@ def reweight(weight, obs, **kwargs):
         the reweighting factor on all configurations in weight.idl and not
         on the configurations in obs[i].idl. Default False.
     """
+    if len(weight.cov_names):
+        raise ValueError('Error: Not possible to reweight with a weight that contains covobs!')
     result = []
     for i in range(len(obs)):
         if len(obs[i].cov_names):
